@@ -35,6 +35,11 @@ def metadataDescriptorKeys : List (List UInt8) := [[99, 109, 108, 115], [99, 117
 def annotationKinds : List (List UInt8) := [[116, 120, 116, 65], [115, 110, 100, 77]]
 /-- options of the validator of `Annotation.marker` -/
 def annotationMarkers : List (List UInt8) := [[116, 120, 116, 67], [115, 110, 100, 77]]
+/-- the tests of the `if` statements of SectionDividerSetting.read / write -/
+def sectionDividerConditions : List (String × String × String) := [
+  ("SectionDividerSetting", "read", "is_readable(fp, 8); signature is not None and is_readable(fp, 4)"),
+  ("SectionDividerSetting", "write", "self.signature and self.blend_mode; self.sub_type is not None")
+]
 /-- `EffectsLayer.EFFECT_TYPES`: (key, class name), in the order of the dict -/
 def effectTypes : List (List UInt8 × String) := [([99, 109, 110, 83], "CommonStateInfo"), ([100, 115, 100, 119], "ShadowInfo"), ([105, 115, 100, 119], "ShadowInfo"), ([111, 103, 108, 119], "OuterGlowInfo"), ([105, 103, 108, 119], "InnerGlowInfo"), ([98, 101, 118, 108], "BevelInfo"), ([115, 111, 102, 105], "SolidFillInfo")]
 /-- members of `constants.EffectOSType`, sorted -/
